@@ -945,21 +945,21 @@ class Message(ABC):
             for field_name in self._betterproto.meta_by_field_name
         )
 
-    def __deepcopy__(self: T, _: Any = {}) -> T:
-        kwargs = {}
-        for name in self._betterproto.sorted_field_names:
-            value = self.__raw_get(name)
-            if value is not PLACEHOLDER:
-                kwargs[name] = deepcopy(value)
-        return self.__class__(**kwargs)  # type: ignore
+    def __deepcopy__(self: T, memo: Any = None) -> T:
+        # Copy the instance state itself instead of re-running __init__ with the
+        # field values: that keeps unknown fields, oneof selection and the presence
+        # flags of this message and of nested ones, and never touches the original.
+        new = self.__class__()
+        new.__dict__.update(
+            {key: deepcopy(value, memo) for key, value in self.__dict__.items()}
+        )
+        return new  # type: ignore
 
     def __copy__(self: T, _: Any = {}) -> T:
-        kwargs = {}
-        for name in self._betterproto.sorted_field_names:
-            value = self.__raw_get(name)
-            if value is not PLACEHOLDER:
-                kwargs[name] = value
-        return self.__class__(**kwargs)  # type: ignore
+        new = self.__class__()
+        new.__dict__.update(self.__dict__)
+        new.__dict__["_group_current"] = dict(self._group_current)
+        return new  # type: ignore
 
     @classproperty
     def _betterproto(cls: type[Self]) -> ProtoClassMetadata:  # type: ignore
